@@ -22,6 +22,8 @@ COMPONENTS = {
     "C17": ALL,
 }
 
+INV_PROPS = {"C01", "C02", "C04", "C12"}
+
 def script_blocks(path):
     """{name: [lines]} of a .scripts file"""
     out, cur = {}, None
@@ -58,6 +60,7 @@ class KernelRun:
         self.nontrivial = set()
         self.modes = {}
         self.relevant_ops = None
+        self.inv = {"states": 0, "valid_states": 0, "fails": []}
         os.makedirs(os.path.join(fw.BUILD, "run"), exist_ok=True)
 
     def ok(self): return self.impl is not None and self.model is not None
@@ -66,11 +69,17 @@ class KernelRun:
         """lock-step over one .scripts file; accumulates stats, divergences and oracle failures"""
         args_i = [self.impl] + (["--oracle", oracle] if oracle else [])
         self.relevant_ops = relevant_ops
-        divs, st = lockstep.lockstep(args_i, [self.model], path, timeout=3000)
+        menv = None if self.ctx.id in INV_PROPS else {"KDRIVER_NO_INV": "1"}
+        divs, st = lockstep.lockstep(args_i, [self.model], path, timeout=3000, model_env=menv)
         self.stats["scripts"] += st["scripts"]; self.stats["steps"] += st["steps"]
         for k, v in st["outcomes"].items(): self.stats["outcomes"][k] = self.stats["outcomes"].get(k, 0) + v
         for k, v in st["ops"].items(): self.stats["ops"][k] = self.stats["ops"].get(k, 0) + v
         self.divs += divs
+        inv = st.get("inv", {})
+        self.inv["states"] += inv.get("states", 0); self.inv["valid_states"] += inv.get("valid_states", 0)
+        for f in inv.get("fails", []):
+            f["lines"] = script_blocks(path).get(f["script"], [])[:f["step"]]
+            self.inv["fails"].append(f)
         scripts = script_blocks(path)
         for of in st.get("oracle_fails", []):
             of["lines"] = scripts.get(of["script"], [])[:of["step"]]
@@ -170,6 +179,16 @@ def judge(ctx, pid, kr, oracle):
     ctx.cov["outcome_histogram"] = kr.stats["outcomes"]
     ctx.cov["mode_histogram_final_state"] = kr.modes
     ctx.cov["samples"] += kr.samples
+    # 0. the decidable invariants (Kernel/InvB.v: cache exactness, counters) evaluated on every model state reached by a valid history:
+    #    they are hypotheses of one-step theorems, so a reachable state violating them leaves those theorems vacuous there
+    ctx.cov["model_states_with_invariants_evaluated"] = kr.inv["states"]
+    ctx.cov["model_states_valid_history"] = kr.inv["valid_states"]
+    names = {"1": "vbu_ok", "2": "ebu_ok", "3": "fbu_ok", "4": "counts_ok"}
+    if pid in INV_PROPS:
+        for f in kr.inv["fails"][:3]:
+            ctx.broken.append({"kind": "invariant", "name": "Kernel/InvB.v " + ",".join(names.get(x, x) for x in f["invariants"].split(",")) +
+                               " is false in a reachable model state (hypothesis of the one-step theorems)",
+                               "detail": {"script": f["script"], "step": f["step"], "script_lines": f.get("lines")}})
     # 1. oracle failures on the implementation: concrete failing inputs
     for of in kr.oracle_fails:
         if of["oracle"] != pid: continue
